@@ -10,6 +10,7 @@
   Helper lemmas: `Jawk/Lemmas/DecimalExact.lean`.  (`bigdecimal`'s own arithmetic is NOT trusted:
   the correspondence run compares it with these definitions.)
 -/
+import Jawk.Lemmas.PassThrough
 import Jawk.Lemmas.DecimalExact
 namespace Jawk.C19
 open Jawk DecExact
@@ -86,5 +87,34 @@ theorem nas_rem_exact (a b : Dec) (hb : value b ≠ 0) :
 example : Dec.render (Dec.add ⟨1, 1⟩ ⟨2, 1⟩) = "0.3".toList := by decide   -- 0.1 + 0.2 = 0.3, exactly
 example : Dec.cmp ⟨10, 1⟩ ⟨1, 0⟩ = .eq := by decide                        -- 1.0 = 1
 example : parseU64 (toBytes (printNum (.pos (2 ^ 64 - 1)))) = some (2 ^ 64 - 1) := printNum_pos_roundtrip _ (by norm_num)
+
+
+/-! ### no stage alters a row (helper file `Jawk/Lemmas/PassThrough.lean`)
+
+The sorter converts keys to doubles only to COMPARE them; no stage rebuilds a value. -/
+
+/-- `--filter`, `--unique`, `--sort-by`, `--skip` / `--take`: every row that comes out IS one of the rows that went in
+(same input value, same selected values) — for any chain of them, any states, any evaluator -/
+theorem rows_pass_untouched (ev : Expr → Ctx → Option JV) (cfgs : List StageCfg) (sts : List StageSt)
+    (h : ∀ c ∈ cfgs, Pass.RowPreserving c = true) (rows : List Ctx) :
+    ∀ r ∈ Pipe.specRows ev cfgs sts rows, r ∈ rows := Pass.specRows_mem_of_rowPreserving ev cfgs sts h rows
+
+/-- with `--set` / `--select` as well: every output row has the input value of some input row, unchanged, and only
+gained selected columns; as multisets, the input values that come out are among those that went in -/
+theorem inputs_pass_untouched (ev : Expr → Ctx → Option JV) (cfgs : List StageCfg) (sts : List StageSt)
+    (h : ∀ c ∈ cfgs, Pass.InputPreserving c = true) (rows : List Ctx) :
+    (∀ r ∈ Pipe.specRows ev cfgs sts rows, ∃ r0 ∈ rows, r.input = r0.input ∧ r0.results <+: r.results) ∧
+    Pass.SubMultiset ((Pipe.specRows ev cfgs sts rows).map (·.input)) (rows.map (·.input)) :=
+  ⟨Pass.specRows_input_of_inputPreserving ev cfgs sts h rows, Pass.specRows_inputs_subMultiset ev cfgs sts h rows⟩
+
+/-- `--merge` wraps the rows as they are; every member of a group is the built form of an input row -/
+theorem collections_hold_rows_untouched (ev : Expr → Ctx → Option JV) (e : Expr) (cap : Option Nat) (rows : List Ctx) :
+    Pipe.stageSpec ev .merge cap rows = [{ input := .arr (rows.map Ctx.build) }] ∧
+    ∀ k vs, (k, vs) ∈ Pipe.groupOf ev e rows → ∀ v ∈ vs, ∃ r ∈ rows, ev e r = some (.str k) ∧ v = r.build :=
+  ⟨rfl, fun k vs h => Pass.group_member_mem ev e rows k vs h⟩
+
+/-- an extractor (`.k`, `#i`, nested) returns a sub-value of its input as stored: no number is ever rebuilt -/
+theorem extractors_return_subvalues (steps : List Step) (v x : JV) (h : extractSteps steps v = some x) :
+    Pass.SubValue x v := Pass.extractSteps_subValue steps v x h
 
 end Jawk.C19
